@@ -277,6 +277,19 @@ pub fn spec(pool: &Pool, s: &Snap, op: &Json) -> Spec {
             if pkind == "document" && ckind == "doctype" {
                 return Spec::Unspecified("inserting-a-doctype");
             }
+            if pkind == "document" && ckind == "element" {
+                // DOM Level 1 does not say whether the document element may be put in front of the document type; XML
+                // does not allow that order, and the library refuses it (C15 requires what succeeds to be serialisable)
+                if let (Some((_, rk)), Some(doc)) = (&refk, s.get(&pk)) {
+                    let at = doc.children.iter().position(|k| k == rk);
+                    let dt = doc.children.iter().position(|k| s.get(k).map(|x| x.kind == "doctype").unwrap_or(false));
+                    if let (Some(at), Some(dt)) = (at, dt) {
+                        if at <= dt {
+                            return Spec::Unspecified("document-element-before-the-doctype");
+                        }
+                    }
+                }
+            }
             if kind == "replace" {
                 if let Some((XmlNode::DocumentType(_), _)) = &refk {
                     // with the document type its entity declarations go: values that refer to them change
